@@ -169,8 +169,9 @@ class Ctx:
         return "ok"
 
     def _record_violation(self, v: Violation):
-        os.makedirs(os.path.join(VERIF, "replays"), exist_ok=True)
-        path = os.path.join(VERIF, "replays", f"{self.prop}_seed{self.base_seed}_shard{self.shard}.json")
+        root = os.environ.get("VERIF_OUT", VERIF)
+        os.makedirs(os.path.join(root, "replays"), exist_ok=True)
+        path = os.path.join(root, "replays", f"{self.prop}_seed{self.base_seed}_shard{self.shard}.json")
         if self.replaying:
             path = "(replay)"
         else:
